@@ -357,6 +357,11 @@ def run(ctx):
             if fails:
                 viol("%s does not print the frame its flags ask for: %s" % (" ".join(args), "; ".join(fails[:3])), {"args": args, "stdout": rg.stdout[:3000]})
     runs += version_builds(ctx, viol)
+    # -e is the bound the acceptance test enforces: the test itself on written systems and answers (see C05)
+    from . import C05
+    before = len(ctx.violations)
+    ctx.coverage["acceptance_called_directly"] = C05.acceptance_direct(ctx)
+    concrete += len(ctx.violations) - before
     ctx.log("%d command-line runs: pre / solve / solve -p under the late, early and free writer schedules with -v and -s, -w vs explicit weights, -e, plot, generate, --version" % runs)
     if not res["ok"] and concrete == 0:
         ctx.violation("proof obligation no longer checks (%s %s)" % (res["stage"], res.get("failed_at", "")),
